@@ -104,6 +104,15 @@ def symex_str(v):
 
 
 
+def only_from_destructors(facts, fid, seen=()):
+    """is the function a helper that nothing but destructors (and helpers of that kind) can call?  (it is not nameable from outside the crate)"""
+    g = facts.fns.get(re.sub(r"(::\{closure#\d+\})+$", "", fid))
+    if g is None or fid in seen or g.rec.get("exported", g.rec.get("vis_pub")) or g.rec.get("impl_trait") is not None:
+        return False
+    callers = facts.callers_of(g.id)
+    return bool(callers) and all(h.rec.get("impl_trait") == T_DROP or only_from_destructors(facts, h.id, seen + (fid,)) for h, b2, t2 in callers)
+
+
 def run(ctx):
     facts = ctx.facts
     roles.bind(facts)
@@ -160,8 +169,8 @@ def run(ctx):
             continue
         o = g.origin(t["args"][1])
         fe = [x for x in origin_calls(o) if re.search(r"vec::from_elem|Vec::<T>::(new|with_capacity)$", x[1])] or [x for x in origin_walk(o) if x[0] == "repeat"]
-        if g.rec.get("impl_trait") == T_DROP:
-            ok, what = True, "discarded by design (destructor of a body reader)"
+        if g.rec.get("impl_trait") == T_DROP or only_from_destructors(facts, g.id):
+            ok, what = True, "discarded by design (destructor of a body reader, or a helper only destructors call)"
         elif g.id == "request::new_request":
             # decided on the framing model: on every path that builds a buffered body, the buffer the reads filled is the one the body reader wraps
             import framing_rules as FRM, absint
